@@ -140,17 +140,21 @@ namespace foonathan
                 auto fence  = detail::debug_fence_size;
                 auto offset = detail::align_offset(stack_.top() + fence, alignment);
 
-                if (!stack_.top()
-                    || fence + offset + size + fence > std::size_t(block_end() - stack_.top()))
+                // written so that a huge size cannot wrap the sums around
+                auto overhead = fence + offset + fence;
+                if (!stack_.top() || overhead > std::size_t(block_end() - stack_.top())
+                    || size > std::size_t(block_end() - stack_.top()) - overhead)
                 {
                     // need to grow
                     auto block = arena_.allocate_block();
                     stack_     = detail::fixed_memory_stack(block.memory);
 
                     // new alignment required for over-aligned types
-                    offset = detail::align_offset(stack_.top() + fence, alignment);
+                    offset   = detail::align_offset(stack_.top() + fence, alignment);
+                    overhead = fence + offset + fence;
 
-                    auto needed = fence + offset + size + fence;
+                    auto needed =
+                        size > std::size_t(-1) - overhead ? std::size_t(-1) : overhead + size;
                     detail::check_allocation_size<bad_allocation_size>(needed, block.size, info());
                 }
 
